@@ -11,6 +11,21 @@ NEEDED = ['And2_propagate', 'Or2_propagate', 'Not_propagate', 'Buf_propagate', '
           'BitsMSBF_propagate', 'Mux2_propagate', 'Repeat_propagate', 'ConcatenateMSBF_propagate',
           'ConcatenateLSBF_propagate', 'Range_propagate', 'Constant_propagate', 'Sub_propagate', 'Wire_put']
 
+# parameter lists of those definitions the hand-written models and the case-file terms are written against (coq/Gen/gen.json).
+# A change of /repo that makes a propagate() read fewer / other attributes changes the generated signature: the model terms would then be
+# ill-typed, so the check compares these first and falls back to the implementation-vs-spec sweep (tie broken) instead of failing in coqc.
+EXPECTED_PARAMS = {
+    'And2_propagate': ['w_r', 'v_a', 'v_b'], 'Or2_propagate': ['w_r', 'v_a', 'v_b'], 'Not_propagate': ['w_r', 'v_a'], 'Buf_propagate': ['w_r', 'v_a'],
+    'Bit_propagate': ['w_r', 'c_bit', 'v_a'], 'BitsLSBF_propagate': ['w_a', 'lw_bits', 'v_a'], 'BitsMSBF_propagate': ['w_a', 'lw_bits', 'v_a'],
+    'Mux2_propagate': ['w_r', 'v_sel', 'v_sel0', 'v_sel1'], 'Repeat_propagate': ['w_r', 'v_i'], 'ConcatenateMSBF_propagate': ['w_r', 'l_ins'],
+    'ConcatenateLSBF_propagate': ['w_r', 'l_ins'], 'Range_propagate': ['w_r', 'c_high', 'c_low', 'v_a'], 'Constant_propagate': ['w_r', 'c_value'],
+    'Sub_propagate': ['w_r', 'v_a', 'v_b']}
+
+
+def signature_changes(sigs):
+    return {n: [p[0] for p in sigs[n].get('params', [])] for n, exp in EXPECTED_PARAMS.items()
+            if n in sigs and [p[0] for p in sigs[n].get('params', [])] != exp}
+
 
 def lam(n, body):
     """fun l => match l with [x0; ..; x{n-1}] => body | _ => [] end"""
@@ -94,7 +109,7 @@ def catalogue(py4hw, quick, pol=None):
             a, r = hw.wire('a', c['wa']), hw.wire('r', c['wr'])
             getattr(L, cls)(hw, 'dut', a, r); return [a], [r]
         cfgs = [dict(wa=w, wr=w) for w in (1, 2, 3, 5, 8, 32, 65)] + [dict(wa=3, wr=2), dict(wa=4, wr=1)]
-        if cls == 'Buf': cfgs += [dict(wa=2, wr=5)]
+        cfgs += [dict(wa=2, wr=5), dict(wa=3, wr=4), dict(wa=8, wr=3), dict(wa=16, wr=40)]        # zero extension / truncation
         B.append(Block(cls, build, lambda c: lam(1, '[%s %d x0]' % (mname, c['wr'])), lambda c: lam(1, '[%s %d x0]' % (sname, c['wr'])),
                        lambda c: [c['wa']], cfgs))
     gate1('Not', 'Not_m', 'not_spec')
@@ -132,23 +147,33 @@ def catalogue(py4hw, quick, pol=None):
     redbits('OrBits', 'OrBits_m', lambda c: 'orbits_spec x0')
 
     # ------------------------------------------------------------------ bit manipulation
+    # bit-manipulation blocks are driven with result wires of the natural width AND wider / narrower ones: a body that relies on put()'s
+    # truncation instead of its own mask is only visible on a result wire wider than the field
     def b_bit(hw, c):
-        a, r = hw.wire('a', c['wa']), hw.wire('r', 1); L.Bit(hw, 'dut', a, c['bit'], r); return [a], [r]
-    B.append(Block('Bit', b_bit, lambda c: lam(1, '[Bit_m 1 %d x0]' % c['bit']), lambda c: lam(1, '[bit_spec x0 %d]' % c['bit']), lambda c: [c['wa']],
-                   [dict(wa=w, bit=i) for w in (1, 2, 3, 4) for i in range(w)] + [dict(wa=32, bit=i) for i in (0, 15, 31)] + [dict(wa=70, bit=69), dict(wa=3, bit=5)]))
+        a, r = hw.wire('a', c['wa']), hw.wire('r', c.get('wr', 1)); L.Bit(hw, 'dut', a, c['bit'], r); return [a], [r]
+    B.append(Block('Bit', b_bit, lambda c: lam(1, '[Bit_m %d %d x0]' % (c.get('wr', 1), c['bit'])), lambda c: lam(1, '[bit_spec x0 %d]' % c['bit']), lambda c: [c['wa']],
+                   [dict(wa=w, bit=i) for w in (1, 2, 3, 4) for i in range(w)] + [dict(wa=32, bit=i) for i in (0, 15, 31)] + [dict(wa=70, bit=69), dict(wa=3, bit=5)] +
+                   [dict(wa=w, bit=i, wr=wr) for w in (3, 4) for i in range(w) for wr in (2, 5)] + [dict(wa=32, bit=7, wr=8), dict(wa=64, bit=31, wr=40)]))
 
     def b_range(hw, c):
         a, r = hw.wire('a', c['wa']), hw.wire('r', c['wr']); L.Range(hw, 'dut', a, c['hi'], c['lo'], r); return [a], [r]
     B.append(Block('Range', b_range, lambda c: lam(1, '[Range_m %d %d %d x0]' % (c['wr'], c['hi'], c['lo'])),
                    lambda c: lam(1, '[range_spec %d %d x0 mod 2 ^ %d]' % (c['hi'], c['lo'], c['wr'])), lambda c: [c['wa']],
                    [dict(wa=w, hi=h, lo=l, wr=h - l + 1) for w in (1, 2, 3, 4) for h in range(w) for l in range(h + 1)] +
-                   [dict(wa=32, hi=30, lo=23, wr=8), dict(wa=32, hi=22, lo=0, wr=23), dict(wa=64, hi=63, lo=32, wr=32), dict(wa=8, hi=6, lo=2, wr=3), dict(wa=8, hi=6, lo=2, wr=7)]))
+                   [dict(wa=32, hi=30, lo=23, wr=8), dict(wa=32, hi=22, lo=0, wr=23), dict(wa=64, hi=63, lo=32, wr=32), dict(wa=8, hi=6, lo=2, wr=3), dict(wa=8, hi=6, lo=2, wr=7)] +
+                   # result wider (by 1 and by 3) and narrower than the field, every field of a 4- and a 5-bit operand; wide operands with bits above `high`
+                   [dict(wa=w, hi=h, lo=l, wr=h - l + 1 + d) for w in (4, 5) for h in range(w) for l in range(h + 1) for d in (1, 3, -1) if h - l + 1 + d >= 1] +
+                   [dict(wa=32, hi=30, lo=23, wr=16), dict(wa=32, hi=22, lo=0, wr=32), dict(wa=32, hi=15, lo=8, wr=5), dict(wa=64, hi=40, lo=9, wr=64), dict(wa=16, hi=7, lo=7, wr=4)]))
 
     def bits(cls, mname, sname):
         def build(hw, c):
-            a = hw.wire('a', c['wa']); bs = wires(hw, 'b', [1] * c['wa']); getattr(L, cls)(hw, 'dut', a, bs); return [a], bs
-        B.append(Block(cls, build, lambda c: lam(1, '%s %d x0' % (mname, c['wa'])), lambda c: lam(1, '%s %d x0' % (sname, c['wa'])),
-                       lambda c: [c['wa']], [dict(wa=w) for w in (1, 2, 3, 4, 5, 8, 17)]))
+            a = hw.wire('a', c['wa']); bs = wires(hw, 'b', [c.get('bw', 1)] * c['wa']); getattr(L, cls)(hw, 'dut', a, bs); return [a], bs
+        def model(c):
+            if 'bw' not in c: return lam(1, '%s %d x0' % (mname, c['wa']))
+            prop = '%s_propagate %d (repeat %d %d%%nat) x0' % (cls, c['wa'], c['bw'], c['wa'])       # bit wires wider than 1 bit
+            return lam(1, prop if cls == 'BitsLSBF' else 'rev (%s)' % prop)
+        B.append(Block(cls, build, model, lambda c: lam(1, '%s %d x0' % (sname, c['wa'])),
+                       lambda c: [c['wa']], [dict(wa=w) for w in (1, 2, 3, 4, 5, 8, 17)] + [dict(wa=3, bw=2), dict(wa=5, bw=3), dict(wa=9, bw=4)]))
     bits('BitsLSBF', 'BitsLSBF_m', 'bits_lsbf_spec')
     bits('BitsMSBF', 'BitsMSBF_m', 'bits_msbf_spec')
 
@@ -167,7 +192,7 @@ def catalogue(py4hw, quick, pol=None):
             ins = wires(hw, 'i', c['ws']); r = hw.wire('r', c['wr']); getattr(L, cls)(hw, 'dut', ins, r); return ins, [r]
         def pairs(c): return '[' + '; '.join('(%d, x%d)' % (w, i) for i, w in enumerate(c['ws'])) + ']'
         wss = [[1], [3], [1, 1], [1, 2], [2, 1], [3, 3], [1, 2, 3], [3, 1, 2], [1, 1, 1, 1], [2, 2, 2, 2, 2], [1, 3, 1, 2, 1], [8, 23, 1], [1, 8, 23], [16, 16, 16, 16]]
-        cfgs = [dict(ws=ws, wr=sum(ws)) for ws in wss] + [dict(ws=[1, 2], wr=5), dict(ws=[2, 1, 1], wr=7)]
+        cfgs = [dict(ws=ws, wr=sum(ws)) for ws in wss] + [dict(ws=[1, 2], wr=5), dict(ws=[2, 1, 1], wr=7)] + [dict(ws=ws, wr=sum(ws) + d) for ws in wss[:9] for d in (1, 4)] + [dict(ws=[8, 23, 1], wr=64)]
         B.append(Block(cls, build, lambda c: lam(len(c['ws']), '[%s %d %s]' % (mname, c['wr'], pairs(c))),
                        lambda c: lam(len(c['ws']), '[%s %s mod 2 ^ %d]' % (sname, pairs(c), c['wr'])), lambda c: c['ws'], cfgs))
     concat('ConcatenateMSBF', 'ConcatenateMSBF_m', 'msbf_spec')
@@ -248,8 +273,8 @@ def catalogue(py4hw, quick, pol=None):
     def eqconst(cls, mname, sname):
         def build(hw, c):
             a, r = hw.wire('a', c['wa']), hw.wire('r', 1); getattr(L, cls)(hw, 'dut', a, c['v'], r); return [a], [r]
-        B.append(Block(cls, build, lambda c: lam(1, '[%s %d 1 %d x0]' % (mname, c['wa'], c['v'])), lambda c: lam(1, '[%s x0 %d]' % (sname, c['v'])),
-                       lambda c: [c['wa']], [dict(wa=w, v=v) for w in (1, 2, 3, 4) for v in range(1 << w)] +
+        B.append(Block(cls, build, lambda c: lam(1, '[%s %d 1 %d x0]' % (mname, c['wa'], c['v'])), lambda c: lam(1, '[%s x0 %d]' % (sname, c['v'] % (1 << c['wa']))),      # a constant that does not fit is compared modulo 2^wa
+                       lambda c: [c['wa']], [dict(wa=w, v=v) for w in (1, 2, 3, 4) for v in range(1 << w)] + [dict(wa=1, v=2), dict(wa=1, v=3), dict(wa=1, v=6), dict(wa=2, v=6), dict(wa=3, v=13), dict(wa=8, v=257)] +
                        [dict(wa=8, v=v) for v in (0, 1, 127, 128, 255)] + [dict(wa=33, v=v) for v in (0, 1 << 32, (1 << 33) - 1)]))
     eqconst('EqualConstant', 'EqualConstant_m', 'equal_spec')
     eqconst('NotEqualConstant', 'NotEqualConstant_m', 'not_equal_spec')
